@@ -66,7 +66,12 @@ LOOK = ['skip_dec', 'skip_body', 'xfail',
 MODES = {'j20': ['-j20'], 'rep2': ['--repeat', '2'], 'j2rep2': ['-j2', '--repeat', '2'], 'rep3v': ['--repeat', '3', '-v'],
          'seq': [], 'j1': ['-j1'], 'j2': ['-j2'], 'j3': ['-j3'], 'v': ['-v'],
          'j2vv': ['-j2', '-vv'], 't': ['-t', 'q0|q1'], 'lvl': ['--only-level', '1'],
-         'j2t': ['-j2', '-t', 'q1|q2'], 'q': ['-q'], 'j2q': ['-j2', '--quiet']}
+         'j2t': ['-j2', '-t', 'q1|q2'], 'q': ['-q'], 'j2q': ['-j2', '--quiet'],
+         # the parent's own stdout cannot encode everything (an ASCII / latin-1
+         # console): see PARENT_ENC
+         'j2v_ascii': ['-j2', '-v'], 'j2vv_ascii': ['-j2', '-vv'], 'v_latin1': ['-v'], 'j1v_latin1': ['-j1', '-v']}
+PARENT_ENC = {'j2v_ascii': ('ascii', 'strict'), 'j2vv_ascii': ('ascii', 'strict'),
+              'v_latin1': ('latin-1', 'strict'), 'j1v_latin1': ('latin-1', 'strict')}
 
 
 def _o_filter(case):
@@ -175,6 +180,15 @@ def cases(tier, seed):
                                   ['cutline', 1], ['cutline', 2], ['cutlast', 3],
                                   ['die_before_report'], ['noise_then_cut']):
                         yield [shape, scs, {}, [], m, [which] + fault]
+                # ... and the child's stderr holds text the parent's stdout
+                # cannot encode (the banner quotes it under -v)
+                for m2 in (['v_latin1', 'j2v_ascii', 'j2vv_ascii'] if shape == 'N1B2C1' else ['j2v_ascii', 'j1v_latin1']):
+                    if m != 'j2':
+                        continue
+                    for which in range(2):
+                        for fault in (['nonascii_nohdr'], ['undecodable'], ['nonascii_then_cut'], ['empty'], ['oserror']):
+                            yield [shape, scs, {}, [], m2, [which] + fault]
+                for which in range(3):
                     if tier == 'thorough':
                         for off in range(0, 120):
                             yield [shape, scs, {}, [], m, [which, 'cutbyte', off]]
@@ -248,6 +262,12 @@ def _mk_hook(cf, state):
                 return out, err[:-cf[2]] if len(err) > cf[2] else b''
             if kind == 'die_before_report':
                 return out[:len(out) // 2], b''
+            if kind == 'nonascii_nohdr':
+                return out, 'Ger\xe4t antwortet nicht \u2013 Abbruch \u4e2d\n'.encode('utf-8')
+            if kind == 'undecodable':
+                return out, b'\xff\xfe invalid utf-8 \xe9\n'
+            if kind == 'nonascii_then_cut':
+                return out, 'Warnung: Ger\xe4t \u2013\n'.encode('utf-8') + err[:max(0, len(err) - 5)]
             if kind == 'noise_then_cut':
                 return out, b'Exception ignored in: <foo>\n' + err[:max(0, len(err) - 5)]
             if kind == 'cutbyte':
@@ -375,7 +395,7 @@ def run_case(case):
     argv = list(MODES[m])
     state = {'n': 0, 'hit': False}
     hook = _mk_hook(cf, state) if cf else None
-    res = runrt.run_world(spec, argv, child_hook=hook)
+    res = runrt.run_world(spec, argv, child_hook=hook, parent_encoding=PARENT_ENC.get(m))
     truth = ow.Truth(spec, res)
     viol = []
     kinds = sorted({(s['s'] if isinstance(s, dict) else s) for s in sc if s != 'pass'})
